@@ -138,7 +138,7 @@ func genC15(t *rapid.T) c15Case {
 		if rapid.IntRange(0, 3).Draw(t, "shapesClass") == 0 {
 			class = "shapes.Thing"
 		}
-		p.Validations = append(p.Validations, m.Validation{Name: names[i], Level: pick(t, []string{"violation", "warning", "info"}, "level"), Class: class, Body: g.formula(0), Message: pick(t, msgs, "msg")})
+		p.Validations = append(p.Validations, m.Validation{Name: names[i], Level: pick(t, []string{"violation", "warning", "info"}, "level"), Class: class, Body: g.bounded(40), Message: pick(t, msgs, "msg")})
 	}
 	for _, v := range p.Validations {
 		v.Body.MarkPolarity(m.Pos)
